@@ -43,7 +43,7 @@ ALPHABETS = [
     ["ch", "firenet", "svc"],
 ]
 FOREIGN = "zz"
-FORMS = ["bare", "http", "schemeless", "upper", "dot", "split", "auth", "httpdot", "auth2", "dotport", "hostq", "hostfrag", "bareport", "wss"]
+FORMS = ["bare", "http", "schemeless", "upper", "dot", "split", "auth", "httpdot", "auth2", "dotport", "hostq", "hostfrag", "bareport", "wss", "baredslash"]
 NET_FAULTS = ["net_refused", "net_reset_on_read", "net_truncated", "net_garbage", "net_stale"]
 DISK_FAULTS = ["disk_open_error", "disk_write_error", "disk_close_error", "crash_during_write", "crash_between"]
 FAULT_KINDS = NET_FAULTS + DISK_FAULTS
@@ -142,6 +142,10 @@ def render(labels, form):
         u = "ftp://user:pw@%s/" % host
     elif form == "auth2":
         u = "http://first.last:p-w%%40d~@%s:8080/x?y#z" % host
+    elif form == "baredslash":
+        # (a single all-letter label followed by '//' reads as a protocol to the
+        # library's own PROTOCOL_RE: not a host spelling)
+        u = "%s//a.html" % host if "." in host else host
     elif form == "wss":
         u = "wss://%s/socket" % host
     elif form == "hostq":
